@@ -148,3 +148,17 @@ class _PartialRunsProbe:
 @register("vhdx_partial_runs")
 def open_partial_runs(files, opaque, p):
     return _PartialRunsProbe()
+
+
+@register("vmdk_header")
+def open_vmdk_header(files, opaque, p):
+    from dissect.hypervisor.disk.vmdk import SparseExtentHeader
+
+    return SparseExtentHeader(files["img"])
+
+
+@register("hyperv")
+def open_hyperv(files, opaque, p):
+    from dissect.hypervisor.descriptor.hyperv import HyperVFile
+
+    return HyperVFile(files["img"])
